@@ -61,8 +61,10 @@ def layer_flux_burgers(ctx):
         elif k == 2:
             L, R = float(np.round(L)), float(np.round(R))
         m = impl.burgers.model()
-        cases.append(dict(op="k burgersFlux %s" % qs([L, R]), what='burgers/numflux', inp=dict(uL=L, uR=R),
-                          f=(lambda m=m, L=L, R=R: m.numflux(None, [np.array([L])], [np.array([R])])[0]),
+        intdt = (k == 2 and i % 12 < 6)         # whole-number states in integer arrays (mesh-free test data are often written [1, 3, -2])
+        mk_ = (lambda x, intdt=intdt: np.array([int(x)], dtype=np.int64)) if intdt else (lambda x: np.array([x]))
+        cases.append(dict(op="k burgersFlux %s" % qs([L, R]), what='burgers/numflux' + ('[int arrays]' if intdt else ''), inp=dict(uL=L, uR=R),
+                          f=(lambda m=m, L=L, R=R, mk_=mk_: np.asarray(m.numflux(None, [mk_(L)], [mk_(R)])[0], dtype=float)),
                           scale=L * L + R * R + 1e-300,
                           branch='tie' if L + R == 0 else ('right' if L + R > 0 else 'left')))
     return run_cases(ctx, 'L-flux-burgers', cases)
